@@ -32,16 +32,22 @@ ID = "C18"
 LEVEL = "proof"
 ENGINES = ["lean-model", "pyextract", "purediff"]
 LEVEL_TEXT = (
-    "Lean theorems for all outcome lists / handlers / causes (allowed_iff, error_priority, status_code_message, "
-    "warnings_order, gate_spec, select_spec) and for all bodies and patches (apply_total_on_welltyped; "
-    "fidelity_partial: under the guard 'patch mappings only descend into mappings or absent keys' the result has "
-    "exactly the leaves of the RFC 7386 merge, i.e. equal up to key order and empty mappings). The unguarded "
-    "fidelity clause and the clause 'handlers match the operation' are false of the code: negations proved with "
-    "witnesses (apply_error_witness, fidelity_unguarded_witness, gate_ignores_operations_witness), replayed on the "
-    "real code on every run and listed as open findings. Model tied by translator (priority key, gate, "
-    "subresource) and by differential runs of the real Patch / build_response / serve_admission_request.")
-TIE = ("T (priority key, iter_handlers gate, _matches_subresource: AST -> Lean, re-proved equal) + "
-       "D (real Patch._apply_patch/as_json_patch, build_response, serve_admission_request vs Lean model)")
+    "Lean theorems, no size/depth bounds: for all outcome lists and warnings (allowed_iff, status_iff_denied, "
+    "error_priority incl. first-among-equals, status_code_message, warnings_order, prio_strict_order); for all "
+    "handlers/causes (gate_spec, select_spec); for all bodies and all patches (apply_total_on_welltyped, "
+    "fidelity_partial: under the guard WellTyped = 'patch mappings only descend into mappings or absent keys, keys "
+    "unique per level' the mutated body has exactly the leaves of the RFC 7386 merge at every path, i.e. equality up "
+    "to key order and the presence of empty mappings; dropEmpty_leafEq ties that relation to the drop-empty normal "
+    "form). The unguarded fidelity clause and the clause 'handlers match the operation' are FALSE of the code: their "
+    "negations are proved with witnesses (apply_error_witness, fidelity_unguarded_witness, "
+    "gate_ignores_operations_witness), replayed on the real code on every run and listed as open findings "
+    "F4, C18-F2, C18-F3. jsonpatch.from_diff is outside the model (contract only); two deviations from its contract "
+    "are open findings C18-F4, C18-F5. Model tied by translator (T) and differential runs (D).")
+TIE = ("T (sort key of build_response, class hierarchy of AdmissionError, iter_handlers gate, _matches_subresource, "
+       "its use in match(): AST -> Lean, re-proved equal; other statements of build_response anchored verbatim) + "
+       "D (real Patch._apply_patch + fns, Patch.as_json_patch through an independent RFC 6902 applier, "
+       "build_response, serve_admission_request vs the Lean model; Lean mergePatch vs Python RFC 7386 reference). "
+       "On ill-typed inputs the apply-tie accepts the modelled defect or a property-conforming result.")
 THEOREMS = [
     ("Kopf.Props.C18", "Kopf.C18.allowed_iff"),
     ("Kopf.Props.C18", "Kopf.C18.status_iff_denied"),
@@ -733,6 +739,8 @@ class Result:
         self.tags: list[str] = []
         self.result = "ok"
         self.diff_suspect = False   # the JSON patch does not reproduce the mechanism's own result
+        self.want: Any = None       # the reference result (merge + fns), when it was computed
+        self.illtyped = False       # some patch mapping sits over a present non-mapping target
 
     def fail(self, what: str, sig: dict) -> None:
         self.fails.append((what, sig))
@@ -785,6 +793,7 @@ def oracle_patch(res: Result, body: dict, patch: dict, fn_objs: list, ops: Any, 
     independently patched object with the independent merge (+ fns) up to empty mappings. `to_be` (the
     real mechanism's intermediate body) is used only to *classify* a failure for the findings list."""
     hits = nonmapping_hits(body, patch) if patch else set()
+    res.illtyped = bool(hits)
     if exc is not None:
         res.result = err_tag(exc)
         if isinstance(exc, TypeError) and "leafful" in hits:
@@ -811,6 +820,7 @@ def oracle_patch(res: Result, body: dict, patch: dict, fn_objs: list, ops: Any, 
         want = want_for(patch)
     except Exception as e:   # the reference side could not run the functions: a harness limit, say so loudly
         raise RuntimeError(f"oracle could not apply fns to the reference merge: {e!r}")
+    res.want = want
     if eq_strict(strip_empty(got), strip_empty(want)):
         return got
     res.result = "mismatch"
@@ -1122,7 +1132,12 @@ def run_shard(args: tuple[str, int, list | None]) -> dict:
             for what, sig in res.fails:
                 out["fails"].append((what, sig, case))
             for what, req, impl in res.reqs:
-                out["reqs"].append((what, req, impl, case))
+                # On ill-typed inputs (where the theorems claim nothing but the witnesses) the tie accepts,
+                # besides the modelled behaviour, an implementation result that conforms to the property
+                # (what a repair of F4 / C18-F2 would give); the oracle has checked it independently.
+                alt = bool(what.startswith("apply") and res.illtyped and impl[0] == "ok" and res.want is not None
+                           and eq_strict(strip_empty(impl[1]), strip_empty(res.want)))
+                out["reqs"].append((what, req, impl, case, alt))
     asyncio.run(go())
     return out
 
@@ -1150,11 +1165,14 @@ def absorb(ctx: Ctx, out: dict, ask: bool = True) -> None:
     if not ask or not out["reqs"]:
         return
     try:
-        answers = ctx.driver.ask([req for _, req, _, _ in out["reqs"]])
+        answers = ctx.driver.ask([r[1] for r in out["reqs"]])
     except leanio.LeanError as e:
         # the driver process itself did not run (toolchain / shared Driver.lean problem): exit 2, not a verdict
         raise RuntimeError(f"Lean driver failed: {e}\n{e.log[-2000:]}")
-    for (what, req, impl, case), ans in zip(out["reqs"], answers):
+    for (what, req, impl, case, alt), ans in zip(out["reqs"], answers):
+        if alt and leanio.canon(impl) != leanio.canon(ans):
+            ctx.count("tie", "apply:ill-typed input, implementation conforms to the property (model mirrors F4/C18-F2)")
+            continue
         ctx.compare(f"C18 {what}", impl, ans, {**_rp(case), "request": req})
         ctx.count("tie", what.split("(")[0])
     ctx.traces += len(answers)
